@@ -838,6 +838,32 @@ pub fn truncated_at(obs: &crate::client::ConnObs) -> Option<usize> {
     }
 }
 
+/// The Echo API answers with the hex of what it received, so a request of
+/// 60 KB and more (the large multipart fields) has a response of twice that:
+/// over a narrow, slow server->client pipe it would take longer than the 60 s
+/// a client waits.  Raises that pipe's capacity so that the largest response
+/// crosses in about 20 virtual seconds at the wire's worst latency.  (Found by
+/// the soak under VERIF_SEED=4006: 377 KB over 600 bytes per 100-200 ms.)
+pub fn fit_s2c_echo(c: &mut ConnPlan) {
+    let largest = c
+        .steps
+        .iter()
+        .filter_map(|s| match s {
+            Step::Send { data, .. } => Some(data.0.len()),
+            _ => None,
+        })
+        .max()
+        .unwrap_or(0) as u64;
+    if largest < 60_000 {
+        return;
+    }
+    let lat = c.s2c.lat_max.max(1);
+    let need = ((2 * largest + 2_000) * lat).div_ceil(20_000) as usize + 1;
+    if c.s2c.cap < need {
+        c.s2c.cap = need;
+    }
+}
+
 /// Keeps a generated connection inside hyper's 30 s header-read timeout:
 /// raises the client->server pipe capacity so that the largest request of the
 /// script crosses the wire in under ~10 virtual seconds at the wire's worst
